@@ -9,6 +9,7 @@ import Cuke.Driver.Outline
 import Cuke.Driver.Norm
 import Cuke.Driver.Glue
 import Cuke.Driver.Report
+import Cuke.Driver.Frame
 /-! `cuke-driver`: one request per line on stdin, one response per line on stdout. -/
 open Cuke Cuke.Wire Cuke.Driver
 
@@ -39,6 +40,8 @@ def dispatch (line : String) : String :=
       | "mon.c01" => handleMonC01 args
       | "mon.c12" => handleMonC12 args
       | "mon.c20" => handleMonC20 args
+      | "trace.frame" => handleTraceFrame args
+      | "mon.frame" => handleMonFrame args
       | _ => none
     match r with
     | some s => s
